@@ -20,7 +20,7 @@ pub struct C02;
 // under plain concatenation ("a"+"bc" = "ab"+"c" = "abc"+""), and under concatenation with a separator
 // ("x"+"_"+"y_z" = "x_y"+"_"+"z", likewise for ":"), plus pairs of long strings that differ only in their
 // last character (a key that looks at a prefix or at less than everything would confuse them).
-const CHAINS: [&str; 14] = [
+const CHAINS: [&str; 17] = [
     "",
     "a",
     "ab",
@@ -36,8 +36,13 @@ const CHAINS: [&str; 14] = [
     // with ids[12], ids[13]: the same 150 characters split at two different positions
     "wwwwwwwwwwwwwwwwwwwwwwwwwwwwwwwwwwwwwwwwwwwwwwwwwwwwwwwwwwwwwwwwwwwwwwwwww",
     "wwwwwwwwwwwwwwwwwwwwwwwwwwwwwwwwwwwwwwwwwwwwwwwwwwwwwwwwwwwwwwwwwwwwwwwwwww",
+    // three of the id pool's strings (and three of this pool's strings are ids): pairs that mirror each other,
+    // (chain, id) = ("a", "c") and ("c", "a")
+    "c",
+    "bc",
+    "b",
 ];
-const IDS: [&str; 14] = [
+const IDS: [&str; 17] = [
     "",
     "c",
     "bc",
@@ -52,8 +57,11 @@ const IDS: [&str; 14] = [
     " c",
     "wvvvvvvvvvvvvvvvvvvvvvvvvvvvvvvvvvvvvvvvvvvvvvvvvvvvvvvvvvvvvvvvvvvvvvvvvvvv",
     "vvvvvvvvvvvvvvvvvvvvvvvvvvvvvvvvvvvvvvvvvvvvvvvvvvvvvvvvvvvvvvvvvvvvvvvvvvv",
+    "a",
+    "ab",
+    "abc",
 ];
-const NC: u8 = 14;
+const NC: u8 = 17;
 const ND: u8 = 5;
 const JOINERS: [&str; 3] = ["", "_", ":"];
 const SRCS: [&str; 3] = ["src", "src2", ""];
@@ -83,6 +91,9 @@ pub enum Op {
     Rotate { bypass: bool },
     /// the owner upgrades the gateway and completes the migration: statuses must be carried over
     UpgradeAndMigrate,
+    /// approval of the mirror image of a message the history already knows: chain = that message's id, id = that
+    /// message's chain (the first known message from `slot` on whose strings exist in the opposite pools)
+    ApproveMirror { slot: u8, src: u8, dest: u8, ph: u8 },
 }
 
 #[derive(Clone, Debug, Serialize, Deserialize)]
@@ -107,6 +118,7 @@ fn op() -> impl Strategy<Value = Op> {
         1 => (1u8..90).prop_map(Op::AdvanceDays),
         1 => any::<bool>().prop_map(|bypass| Op::Rotate { bypass }),
         1 => Just(Op::UpgradeAndMigrate),
+        2 => (0u8..196, 0u8..3, 0u8..3, 0u8..3).prop_map(|(slot, src, dest, ph)| Op::ApproveMirror { slot, src, dest, ph }),
     ]
 }
 
@@ -204,7 +216,31 @@ impl Property for C02 {
             let ev0 = events_len(&env);
             let gw_before = snapshot_of(&env, &w.gw.id);
             let mut touched: Vec<(u8, u8)> = vec![];
+            let mirrored;
+            let op = if let Op::ApproveMirror { slot, src, dest, ph } = op {
+                let n = model.len().max(1);
+                let found = (0..model.len()).map(|k| *model.keys().nth((*slot as usize + k) % n).unwrap()).find_map(|(c, i)| {
+                    let mc = CHAINS.iter().position(|x| *x == IDS[i as usize])?;
+                    let mi = IDS.iter().position(|x| *x == CHAINS[c as usize])?;
+                    if (mc as u8, mi as u8) == (c, i) {
+                        return None;
+                    }
+                    Some(MRef { chain: mc as u8, id: mi as u8, src: *src, dest: *dest, ph: *ph })
+                });
+                match found {
+                    Some(m) => {
+                        cx.label("mirror_image_of_a_known_message_approved");
+                        nontrivial = true;
+                        mirrored = Op::Approve(vec![m]);
+                        &mirrored
+                    }
+                    None => continue,
+                }
+            } else {
+                op
+            };
             match op {
+                Op::ApproveMirror { .. } => unreachable!(),
                 Op::UpgradeAndMigrate => {
                     // (should the tree's migration take data, the owner names every message of the history so far)
                     let hints = MigHints { pairs: model.keys().map(|(c, i)| (CHAINS[*c as usize].to_string(), IDS[*i as usize].to_string())).collect(), ..Default::default() };
